@@ -73,6 +73,9 @@ def run_case(case):
                 spec.update(fault="codegen_exception", fault_once=True)
             elif fault == "bad_flag":
                 spec["compile_args"] = ["-O0", "-fno-such-option-xyz"]
+            elif fault == "bad_library":
+                # the first request names a library that does not exist (link error); the next requests do not
+                spec.update(cffi_libraries=["ffcx_verif_no_such_library"], cffi_libraries_once=True)
             elif fault in ("transient_cc", "transient_link"):
                 w = cc_wrapper(hdir)
                 env = {"CC": w}
@@ -261,7 +264,7 @@ def run_case(case):
 
 def cases_for(tier, s):
     R = []
-    for fault in ("codegen_exception", "bad_flag", "transient_cc", "transient_link"):
+    for fault in ("codegen_exception", "bad_flag", "transient_cc", "transient_link", "bad_library"):
         R.append({"kind": "fail", "fault": fault})
         R.append({"kind": "fail", "fault": fault, "user_handler": True})
     # Ctrl-C (KeyboardInterrupt) at protocol points inside the build, in a process that survives it
